@@ -81,8 +81,613 @@ def extra_oracle(op, args, r):
 def run(ctx):
     logging.disable(logging.CRITICAL)
     vc.run_family(ctx, PROP, gen_cases(ctx), vc.THEOREMS_C22, vc.TESTS_C22, extra_oracle=extra_oracle)
+    run_sequences(ctx)
 
 
 def replay(ctx, obj):
     logging.disable(logging.CRITICAL)
+    if obj["replay"].get("seq_case"):
+        return replay_seq(ctx, obj)
     return vc.replay_case(ctx, PROP, obj, extra_oracle=extra_oracle)
+
+
+# ============================================================================================== sequences over a heap of objects
+# Every case above is ONE operation or query on FRESHLY built, auto-named intervals.  Two dimensions are invisible there:
+#  * state: an interval OBJECT may carry more than its fields (memoised bounds, a last answer, a clone of another object's
+#    dictionary); it shows only when an object that has already answered queries is derived from / copied / joined and the
+#    new object (and the old one) is queried again;
+#  * names / identity: operands that carry the same explicit name but are different sets, operands that are the same object.
+# A *program* runs on a heap of objects.  Objects 0..nb-1 are the bases (tuple, name | None, route), every `d` / `j`
+# instruction appends its result:
+#   ("q", i, query)       query = ("cardinality",) | ("eval", n, signed) | ("max", signed) | ("min", signed) | ("solution", v)
+#                                  | ("members",)     n = int | ("card", delta);  v = int | ("mem", j, delta)
+#   ("d", i, step)        step = ("zext", k) ("sext", k) ("agn", k) ("extract", hi, lo) ("copy",) ("nameless_copy",) ("lub1",)
+#                                  ("neg",) ("not",)
+#   ("j", op, i, j[, k])  op = union | lub | widen | intersection | lub3
+# Oracle, instruction by instruction, exactly the one of the plain streams: the interval an object IS is the tuple read from
+# its fields when it was created (`desc`); a query must be exact for the member set of desc (vsa.query_oracle), a join / meet /
+# widening must contain the members (common members) of the descs of its operands (vsa.oracle), a derivation the image of the
+# members; no instruction may change the fields of an operand.  Nothing is exempted.  A failure is re-run on fresh nameless
+# intervals built from the descs (= the plain stream's case: its signature, so the listed findings are recognised), then on
+# fresh intervals carrying the same names / identity: this only chooses the signature (`name-dependent:…` / `state-dependent:…`).
+import collections, random as _random
+
+from lib.vsa import M
+
+SEQ_JOINS = ("union", "lub", "widen", "intersection")
+STEP_OP = {"zext": "zext", "sext": "sext", "extract": "extract", "neg": "neg", "not": "not"}
+
+
+def mk_base(t, name, route):
+    if route == "ast" and name is not None:      # the same object through the AST layer: an explicitly named SI converted by the VSA backend
+        import claripy
+        return claripy.backends.vsa.convert(claripy.SI(name=name, explicit_name=True, bits=t[0], stride=t[1], lower_bound=t[2], upper_bound=t[3]))
+    return vsa.mk(t, name=name)
+
+
+def step_width(w, s):
+    if s[0] in ("zext", "sext", "agn"):
+        return w + s[1]
+    if s[0] == "extract":
+        return s[1] - s[2] + 1
+    return w
+
+
+def step_real(o, s):
+    k = s[0]
+    if k == "zext":
+        return o.zero_extend(o.bits + s[1])
+    if k == "sext":
+        return o.sign_extend(o.bits + s[1])
+    if k == "agn":
+        return o.agnostic_extend(o.bits + s[1])
+    if k == "extract":
+        return o.extract(s[1], s[2])
+    if k == "copy":
+        return o.copy()
+    if k == "nameless_copy":
+        return o.nameless_copy()
+    if k == "lub1":
+        return vsa.SI().least_upper_bound(o)
+    if k == "neg":
+        return o.neg()
+    if k == "not":
+        return o.bitwise_not()
+    raise ValueError(k)
+
+
+def step_case(s, t):
+    """the plain-stream case (operation, args) a derivation of an object described by t amounts to; None = no image to check"""
+    k = s[0]
+    if k in ("zext", "sext"):
+        return (k, [t, t[0] + s[1]])
+    if k == "extract":
+        return ("extract", [t, s[1], s[2]])
+    if k in ("neg", "not"):
+        return (k, [t])
+    if k in ("copy", "nameless_copy", "lub1"):
+        return ("lub", [t])          # contains every member of the operand
+    return None
+
+
+def step_show(s, inner):
+    k = s[0]
+    if k in ("zext", "sext", "agn"):
+        return "%s(%d, %s)" % (k, s[1], inner)
+    if k == "extract":
+        return "%s[%d:%d]" % (inner, s[1], s[2])
+    return "%s(%s)" % (k, inner)
+
+
+def resolve(q, t):
+    """the concrete query: symbolic parameters are read off the description of the queried object"""
+    if q[0] == "eval" and isinstance(q[1], tuple):
+        n = vsa.card(t)
+        return ("eval", max(0, (n if n <= 300 else 7) + q[1][1]), q[2])
+    if q[0] == "solution" and isinstance(q[1], tuple):
+        w, s, lb, ub = t
+        return ("solution", (lb + (q[1][1] % vsa.card(t)) * s + q[1][2]) & M(w))
+    return q
+
+
+def query_real(o, q):
+    if q[0] == "members":
+        try:
+            return [v for v in range(1 << o.bits) if o.solution(v)]
+        except Exception as e:  # noqa
+            return "err:" + type(e).__name__
+    return vsa.call(vsa.QUERIES[q[0]], o, *q[1:])
+
+
+def query_judge(q, t, r):
+    if q[0] == "members":
+        if isinstance(r, str):
+            return (r, r)
+        want = sorted(vsa.gamma(t))
+        if r != want:
+            odd = sorted(set(r) ^ set(want))
+            return ("wrong", "solution(%d) disagrees with the member set" % odd[0])
+        return None
+    return vsa.query_oracle(q[0], [t] + list(q[1:]), r)
+
+
+def query_show(q, who):
+    if q[0] == "cardinality":
+        return "%s.cardinality" % who
+    if q[0] == "members":
+        return "%s.solution(v) for every v" % who
+    if q[0] == "eval":
+        return "%s.eval(%s, signed=%s)" % (who, q[1], bool(q[2]))
+    if q[0] == "solution":
+        return "%s.solution(%s)" % (who, q[1])
+    return "%s.%s(signed=%s)" % (who, q[0], bool(q[1]))
+
+
+def ins_operands(ins):
+    return list(ins[2:]) if ins[0] == "j" else [ins[1]]
+
+
+def ins_name(ins):
+    return ins[1] if ins[0] == "j" else ins[2][0]
+
+
+def ins_exec(ins, ops):
+    """the instruction on the operand objects `ops` -> (result object | None, canonical result)"""
+    try:
+        if ins[0] == "d":
+            o = step_real(ops[0], ins[2])
+        else:
+            o = vsa.OPS[ins[1]]["real"](*ops)
+    except RecursionError:
+        return None, "err:RecursionError"
+    except Exception as e:  # noqa
+        return None, "err:" + type(e).__name__
+    return o, vsa.tup(o)
+
+
+def ins_judge(ins, ts, r, seed):
+    """-> None | (kind, detail, plain case).  ts: descriptions of the operands; r: canonical result"""
+    if ins[0] == "q":
+        q = ins[2]
+        bad = query_judge(q, ts[0], r)
+        return bad and (bad[0], bad[1], (q[0], [ts[0]] + list(q[1:])))
+    if ins[0] == "j":
+        case = (ins[1], list(ts))
+    else:
+        case = step_case(ins[2], ts[0])
+        if case is None:        # agnostic_extend: a well-formed interval of the new width
+            wn = step_width(ts[0][0], ins[2])
+            if isinstance(r, str) and r.startswith("err:"):
+                return (r, r, ("agn", [ts[0]]))
+            if not isinstance(r, tuple) or not vsa.wf(r) or r[0] != wn:
+                return ("malformed", "the result %s is not a well-formed interval of %d bits" % (r, wn), ("agn", [ts[0]]))
+            return None
+    bad = vsa.oracle(case[0], case[1], r, _random.Random(seed), limit=48)
+    return bad and (bad[0], bad[1], case)
+
+
+def rebuildable(t):
+    return isinstance(t, str) or (vsa.wf(t) and vsa.norm(*t) == t)
+
+
+def seq_signature(ins, idx, objs, desc, how, bad, seed):
+    """finding signature of a failing instruction (see the header of this section)"""
+    kind, _, case = bad
+    ts = [desc[i] for i in idx]
+    name = ins_name(ins)
+    if not all(rebuildable(t) for t in ts):
+        return "C22/%s/%s/operand-not-in-constructor-form:%s" % (name, kind, "+".join(how[i] for i in idx))
+
+    def again(ops):
+        if ins[0] == "q":
+            r = query_real(ops[0], ins[2])
+        else:
+            r = ins_exec(ins, ops)[1]
+        b = ins_judge(ins, ts, r, seed)
+        return b is not None and b[0] == kind
+
+    if again([vsa.mk(t) for t in ts]):                     # the plain stream's case
+        if any(isinstance(t, str) for t in ts):
+            return "C22/%s/%s/bottom-operand" % (name, kind)
+        return vsa.classify(case[0], kind, case[1])
+    named = {}
+    for i in idx:
+        if i not in named:
+            named[i] = vsa.mk(desc[i], name=getattr(objs[i], "name", None)) if not isinstance(desc[i], str) else vsa.mk(desc[i])
+    if again([named[i] for i in idx]):
+        names = [getattr(objs[i], "name", None) for i in idx]
+        rel = "same-object" if len(idx) > 1 and len(set(idx)) == 1 else "same-name" if len(idx) > 1 and len(set(names)) == 1 else \
+            "some-operands-share-a-name" if len(set(names)) < len(names) else "distinct-names"
+        return "C22/%s/%s/name-dependent:%s" % (name, kind, rel)
+    return "C22/%s/%s/state-dependent:%s" % (name, kind, "+".join(how[i] for i in idx))
+
+
+def run_prog(bases, prog, only_last=False):
+    """execute a program on the real objects -> (failures, stats); a failure is dict(k, ins, kind, detail, observed, sig, desc)"""
+    objs, desc, how, width = [], [], [], []
+    fails = []
+    stats = collections.Counter()
+    for b, (t, name, route) in enumerate(bases):
+        try:
+            o = mk_base(t, name, route)
+            d = vsa.tup(o)
+        except Exception as e:  # noqa
+            o, d = None, "err:" + type(e).__name__
+        if d != t:
+            fails.append(dict(k=-1 - b, ins=("base", b), kind="constructor", detail="built from %s, the object is %s" % (vsa.show(t), d), observed=d,
+                              sig="C22/constructor/%s/%s" % (route, vsa.opclass(t)), desc=t))
+            o = None
+        objs.append(o); desc.append(t); how.append("operand")
+        width.append(int(t.split(":")[1]) if isinstance(t, str) else t[0])
+    for k, ins in enumerate(prog):
+        judged = not only_last or k == len(prog) - 1
+        idx = ins_operands(ins)
+        dead = any(objs[i] is None for i in idx)
+        if ins[0] == "q":
+            if dead or isinstance(desc[idx[0]], str):
+                continue
+            q = resolve(ins[2], desc[idx[0]])
+            ins = ("q", ins[1], q)
+            r = query_real(objs[idx[0]], q)
+            o = None
+            stats["queries"] += 1
+        else:
+            width.append(step_width(width[idx[0]], ins[2]) if ins[0] == "d" else width[idx[0]])
+            how.append(ins_name(ins))
+            if dead or (ins[0] == "d" and isinstance(desc[idx[0]], str)):
+                objs.append(None); desc.append(None)
+                continue
+            o, r = ins_exec(ins, [objs[i] for i in idx])
+            stats["derivations" if ins[0] == "d" else "joins"] += 1
+        ts = [desc[i] for i in idx]
+        bad = ins_judge(ins, ts, r, k) if judged else None
+        if bad:
+            fails.append(dict(k=k, ins=ins, kind=bad[0], detail=bad[1], observed=r, desc=ts,
+                              sig=seq_signature(ins, idx, objs, desc, how, bad, k)))
+        if ins[0] != "q":
+            keep = isinstance(r, tuple) and vsa.wf(r) or (isinstance(r, str) and r.startswith("bottom"))
+            objs.append(o if keep else None); desc.append(r if keep else None)
+        if judged:
+            for i in sorted(set(idx)):      # an operation / a query returns something new: its operands stay what they are
+                now = vsa.tup(objs[i])
+                if now != desc[i]:
+                    fails.append(dict(k=k, ins=ins, kind="operand-changed", detail="operand %d was %s and is %s afterwards" % (
+                        idx.index(i), vsa.show(desc[i]), now), observed=r, desc=ts,
+                        sig="C22/%s/operand-changed/%s" % (ins_name(ins), "+".join(how[j] for j in idx))))
+    return fails, stats
+
+
+# ---------------------------------------------------------------------------------------------- generation
+def battery(i, w, rng, light=False):
+    """the queries put to object i (w bits): cardinality, eval / min / max in both signednesses, membership"""
+    qs = [("cardinality",)]
+    for sg in (0, 1):
+        qs += [("max", sg), ("min", sg), ("eval", rng.choice([1, 2, 3, 7, ("card", 0), ("card", 1), ("card", -1)]), sg)]
+    qs += [("solution", ("mem", rng.randrange(64), 0)), ("solution", ("mem", rng.randrange(64), rng.choice([-1, 1]))),
+           ("solution", rng.randrange(1 << w))]
+    if w <= 6:
+        qs.append(("members",))
+    if light:
+        qs = rng.sample(qs, 3)
+    rng.shuffle(qs)
+    return [("q", i, q) for q in qs]
+
+
+def steps_for(w, rng):
+    out = [("copy",), ("nameless_copy",), ("lub1",), ("neg",), ("not",)]
+    for k in sorted({1, w, rng.choice([2, 3, 8, 16, 32])}):
+        out += [("zext", k), ("sext", k), ("agn", k)]
+    ex = {(w - 1, 0), (0, 0), (w - 1, w - 1)}
+    if w >= 2:
+        ex |= {(w - 1, 1), (w - 2, 0)}
+        lo = rng.randrange(w); ex.add((rng.randrange(lo, w), lo))
+    out += [("extract", hi, lo) for hi, lo in sorted(ex)]
+    return out
+
+
+NAME_MODES = ("distinct", "same-name", "first-and-last")
+
+
+def named(ts, mode, rng=None):
+    """bases for the intervals ts under a name mode: auto-numbered names / one explicit name for all / x and z share a name"""
+    route = "ast" if rng is not None and rng.random() < 0.25 else "si"
+    if mode == "distinct":
+        return [(t, None, "si") for t in ts]
+    if mode == "same-name":
+        return [(t, None, "si") if isinstance(t, str) else (t, "v", route) for t in ts]
+    return [(t, None, "si") if isinstance(t, str) else (t, "v" if j in (0, len(ts) - 1) else "w", route) for j, t in enumerate(ts)]
+
+
+def prog_fan(x, rng, nsteps=None):
+    """query x; every derivation of x, each queried at once; x again"""
+    w = x[0]
+    prog = battery(0, w, rng)
+    steps = steps_for(w, rng)
+    if nsteps is not None and len(steps) > nsteps:
+        steps = rng.sample(steps, nsteps)
+    for n, s in enumerate(steps):
+        prog.append(("d", 0, s))
+        prog += battery(n + 1, step_width(w, s), rng, light=rng.random() < 0.5)
+    return prog + battery(0, w, rng)
+
+
+def prog_joins(nb, w, rng, light=True, ops=None):
+    """bases 0..nb-1 (same width), some of them queried first; every join / meet / widening of: two bases in both orders, a base
+    with itself, a base with a copy of itself, a copy with the other base; the results queried, joined back with a base"""
+    prog = []
+    for b in range(nb):
+        if rng.random() < 0.7:
+            prog += battery(b, w, rng, light=rng.random() < 0.5)
+    n = nb
+    prog.append(("d", 0, rng.choice([("copy",), ("nameless_copy",), ("lub1",), ("extract", w - 1, 0)])))
+    c0 = n; n += 1
+    pairs = [(0, 1), (1, 0), (0, 0), (0, c0), (c0, 1), (1, c0)] if nb > 1 else [(0, 0), (0, c0), (c0, 0)]
+    if nb > 2:
+        pairs += [(0, 2), (2, 1)]
+    results = []
+    for op in (ops or SEQ_JOINS):
+        for i, j in pairs:
+            prog.append(("j", op, i, j))
+            prog += battery(n, w, rng, light=light)
+            results.append(n); n += 1
+    trip = [(0, 1, 0), (0, 0, 1), (1, 0, c0)] if nb == 2 else [(0, 1, 2), (2, 0, 1), (0, 2, 0)] if nb > 2 else [(0, 0, c0)]
+    for t in trip:
+        prog.append(("j", "lub3") + t)
+        prog += battery(n, w, rng, light=light)
+        results.append(n); n += 1
+    for r in rng.sample(results, min(3, len(results))):     # a result as an operand, with the base it came from
+        prog.append(("j", rng.choice(SEQ_JOINS), r, rng.randrange(nb)))
+        prog += battery(n, w, rng, light=True)
+        n += 1
+    for b in range(nb):
+        prog += battery(b, w, rng, light=True)
+    return prog
+
+
+def prog_random(nb, w, rng, length):
+    """a random walk over the vocabulary; operands of a join are drawn among the objects of equal width"""
+    widths = [w] * nb
+    prog = []
+    for _ in range(length):
+        k = rng.random()
+        i = rng.randrange(len(widths)) if rng.random() < 0.6 else len(widths) - 1 - rng.randrange(min(3, len(widths)))
+        if k < 0.45:
+            prog += battery(i, widths[i], rng, light=True)[:rng.randrange(1, 4)]
+        elif k < 0.7 and widths[i] <= 64:
+            s = rng.choice(steps_for(widths[i], rng))
+            prog.append(("d", i, s)); widths.append(step_width(widths[i], s))
+        else:
+            same = [j for j, x in enumerate(widths) if x == widths[i]]
+            if rng.random() < 0.2:
+                prog.append(("j", "lub3", i, rng.choice(same), rng.choice(same)))
+            else:
+                a, b = i, rng.choice(same)
+                if rng.random() < 0.5:
+                    a, b = b, a
+                prog.append(("j", rng.choice(SEQ_JOINS), a, b))
+            widths.append(widths[i])
+    return prog + battery(len(widths) - 1, widths[-1], rng, light=True)
+
+
+def few_members(rng, w):
+    """an interval with few members around a pole (every member's image is checked, queries after extension cross the pole)"""
+    s = rng.choice([1, 2, 3, 4, 16]); n = rng.randrange(1, 9)
+    lb = (rng.choice([0, 1 << (w - 1), 1 << (w - 1), M(w)]) - rng.randrange(0, n + 1) * s) & M(w)
+    return vsa.norm(w, s, lb, lb + n * s)
+
+
+def gen_programs(ctx):
+    """-> list of (bases, prog, stream)"""
+    rng = ctx.rng
+    out = []
+    # (1) one object: query, derive, query
+    for w in (1, 2):
+        for x in vsa.all_sis(w):
+            out.append(([(x, None, "si")], prog_fan(x, rng), "seq-exh"))
+    for w, n in ((3, ctx.pick(30, 300)), (4, ctx.pick(30, 300))):
+        pool = vsa.all_sis(w)
+        for _ in range(n):
+            x = rng.choice(pool)
+            out.append(([(x, rng.choice([None, "v"]), "si")], prog_fan(x, rng, nsteps=ctx.pick(8, 99)), "seq-small"))
+    for _ in range(ctx.pick(120, 1200)):
+        w = rng.choice(vsa.WIDE_WIDTHS)
+        x = few_members(rng, w) if rng.random() < 0.5 else vsa.rand_si(rng, w)
+        out.append(([(x, rng.choice([None, "v"]), rng.choice(["si", "si", "ast"]))], prog_fan(x, rng, nsteps=ctx.pick(6, 99)), "seq-wide"))
+    # (2) two / three objects under every name mode: joins, meets, widening
+    for w in (1, 2):
+        sis = vsa.all_sis(w)
+        for a in sis:
+            for b in sis + ["bottom:%d" % w]:
+                if w == 2 and not ctx.thorough() and rng.random() < 0.5:
+                    continue
+                for mode in NAME_MODES[:2]:
+                    out.append((named([a, b], mode), prog_joins(2, w, rng), "join-exh"))
+    for w, n in ((2, ctx.pick(60, 600)), (3, ctx.pick(250, 3000)), (4, ctx.pick(250, 3000))):
+        pool = vsa.all_sis(w)
+        for _ in range(n):
+            nb = rng.choice([2, 2, 3]) if w > 2 else 3
+            ts = [rng.choice(pool) for _ in range(nb)]
+            out.append((named(ts, rng.choice(NAME_MODES), rng), prog_joins(nb, w, rng), "join-small"))
+    for _ in range(ctx.pick(250, 2500)):
+        w = rng.choice(vsa.WIDE_WIDTHS)
+        nb = rng.choice([1, 2, 2, 3])
+        ts = [vsa.rand_si(rng, w) if rng.random() < 0.6 else few_members(rng, w) for _ in range(nb)]
+        if nb > 1 and rng.random() < 0.4:      # overlapping operands exercise the meet
+            a = ts[0]
+            s2 = rng.choice([a[1] or 1, (a[1] or 1) * rng.choice([1, 2, 3]), rng.choice([1, 2, 3, 6])])
+            lb = rng.choice(vsa.sample_members(a, rng, 5))
+            ts[1] = vsa.norm(w, s2, lb - rng.randrange(0, 3) * s2, lb + rng.randrange(1, 9) * s2)
+        out.append((named(ts, rng.choice(NAME_MODES), rng), prog_joins(nb, w, rng), "join-wide"))
+    # (3) random walks
+    for _ in range(ctx.pick(400, 5000)):
+        w = rng.choice([1, 2, 2, 3, 3, 4, 4, 5, 8, 8, 16, 32, 64])
+        nb = rng.choice([1, 2, 2, 3])
+        pool = vsa.all_sis(w) if w <= 4 else None
+        ts = [rng.choice(pool) if pool else (few_members(rng, w) if rng.random() < 0.4 else vsa.rand_si(rng, w)) for _ in range(nb)]
+        out.append((named(ts, rng.choice(NAME_MODES), rng), prog_random(nb, w, rng, rng.randrange(4, 25)), "walk"))
+    return out
+
+
+# ---------------------------------------------------------------------------------------------- shrinking, reporting
+def reindex(nb, prog, drop=(), drop_bases=()):
+    """the program without the instructions `drop` and the bases `drop_bases`; whatever uses a dropped object drops out too.
+    -> (kept bases, program) | None if the last instruction does not survive"""
+    new = {}
+    kept = [b for b in range(nb) if b not in drop_bases]
+    for n, b in enumerate(kept):
+        new[b] = n
+    nxt, obj = len(kept), nb
+    out = []
+    for k, ins in enumerate(prog):
+        idx = ins_operands(ins)
+        ok = k not in drop and all(i in new for i in idx)
+        if ins[0] != "q":
+            if ok:
+                new[obj] = nxt; nxt += 1
+            obj += 1
+        if ok:
+            out.append(("q", new[ins[1]], ins[2]) if ins[0] == "q" else ("d", new[ins[1]], ins[2]) if ins[0] == "d" else
+                       ("j", ins[1]) + tuple(new[i] for i in idx))
+        elif k == len(prog) - 1:
+            return None
+    return kept, out
+
+
+def shrink(bases, prog, k, sig):
+    prog = prog[:k + 1]
+
+    def still(bs, p):
+        fl, _ = run_prog(bs, p, only_last=True)
+        return any(f["k"] == len(p) - 1 and f["sig"] == sig for f in fl)
+
+    def attempt(drop=(), drop_bases=()):
+        nonlocal bases, prog
+        c = reindex(len(bases), prog, drop, drop_bases)
+        if c is None or len(c[1]) + len(c[0]) >= len(prog) + len(bases):
+            return False
+        bs = [bases[b] for b in c[0]]
+        if not still(bs, c[1]):
+            return False
+        bases, prog = bs, c[1]
+        return True
+
+    if not still(bases, prog):
+        return bases, prog
+    # first every instruction that does not build an ancestor of the failing instruction's operands
+    nb = len(bases)
+    made, obj = {}, nb
+    for j, ins in enumerate(prog):
+        if ins[0] != "q":
+            made[obj] = j; obj += 1
+    need, todo = set(), list(ins_operands(prog[-1]))
+    while todo:
+        i = todo.pop()
+        if i >= nb and made[i] not in need:
+            need.add(made[i]); todo += ins_operands(prog[made[i]])
+    attempt(drop={j for j in range(len(prog) - 1) if j not in need and (prog[j][0] != "q")})
+    qs = [j for j in range(len(prog) - 1) if prog[j][0] == "q"]
+    if not attempt(drop=set(qs)):           # no earlier query at all, else a single one
+        for j in qs:
+            if attempt(drop=set(qs) - {j}):
+                break
+    budget = 300
+    changed = True
+    while changed and budget > 0:
+        changed = False
+        for j in range(len(prog) - 2, -1, -1):
+            budget -= 1
+            if attempt(drop={j}):
+                changed = True
+                break
+            if budget <= 0:
+                break
+    for b in range(len(bases) - 1, -1, -1):
+        attempt(drop_bases={b})
+    return bases, prog
+
+
+def program_show(bases, prog):
+    names = []
+    head = []
+    for b, (t, name, route) in enumerate(bases):
+        names.append("xyzuvw"[b] if b < 6 else "b%d" % b)
+        head.append("%s = %s%s" % (names[-1], vsa.show(t), "" if name is None else " named '%s'%s" % (name, " (claripy.SI)" if route == "ast" else "")))
+    lines = []
+    for ins in prog:
+        if ins[0] == "q":
+            lines.append(query_show(ins[2], names[ins[1]]))
+            continue
+        if ins[0] == "d":
+            names.append(step_show(ins[2], names[ins[1]]))
+        else:
+            names.append("%s(%s)" % (ins[1], ", ".join(names[i] for i in ins[2:])))
+        lines.append("o%d = %s" % (len(names) - 1, names[-1]))
+        names[-1] = "o%d" % (len(names) - 1)
+    return "; ".join(head) + ": " + "; then ".join(lines)
+
+
+def prog_size(bases, f):
+    return (sum(0 if isinstance(t, str) else t[0] * 1000 + min(vsa.card(t), 999) for t, _, _ in bases), f["k"], str(bases))
+
+
+def run_sequences(ctx):
+    """the stateful / named stage (oracle only: the Lean model is a function of the fields - it has neither names nor hidden state)"""
+    progs = gen_programs(ctx)
+    found = collections.defaultdict(list)
+    stats = collections.Counter()
+    streams = collections.Counter()
+    modes = collections.Counter()
+    for bases, prog, stream in progs:
+        fails, st = run_prog(bases, prog)
+        stats.update(st)
+        streams[stream] += 1
+        nm = [n for _, n, _ in bases]
+        modes["explicit names, shared" if len([n for n in nm if n]) > len({n for n in nm if n}) else "explicit names" if any(nm) else "auto names"] += 1
+        ctx.count(st["queries"] + st["derivations"] + st["joins"])
+        ctx.distinct(("seq", str(bases), len(prog), str(prog[-1])))
+        for f in fails:
+            found[f["sig"]].append((bases, prog, f))
+    for sig, lst in sorted(found.items()):
+        bases, prog, f = min(lst, key=lambda c: prog_size(c[0], c[2]))
+        if f["k"] >= 0:
+            sb, sp = shrink(bases, prog, f["k"], sig)
+            fl, _ = run_prog(sb, sp)
+            g = next((h for h in fl if h["k"] == len(sp) - 1 and h["sig"] == sig), None)
+            if g is None:
+                sb, sp, g = bases, prog[:f["k"] + 1], f
+        else:
+            sb, sp, g = bases, [], f
+        obs = g["observed"]
+        what = "%s: the last answer is %s - %s  [%d case(s) of this class in this run]" % (
+            program_show(sb, sp), vsa.show(obs) if isinstance(obs, tuple) else obs, g["detail"], len(lst))
+        ctx.violation(sig, what, {"seq_case": True, "bases": [[list(t) if isinstance(t, tuple) else t, n, r] for t, n, r in sb],
+                                  "prog": sp, "kind": g["kind"], "detail": g["detail"], "observed": obs})
+    ctx.cov["sequence_stage"] = {
+        "programs": len(progs), "streams": dict(streams), "instructions": dict(stats), "name_modes": dict(modes),
+        "rule": "program over a heap of interval objects: query (cardinality, eval/min/max signed and unsigned, membership) -> derive (zero/sign/"
+                "agnostic extension, extract, copy, nameless_copy, least_upper_bound of one, neg, not) -> join/meet/widen (two bases in both orders, "
+                "a base with itself / with its copy, three operands, a result with its base) -> query again; bases auto-named, all under one "
+                "explicit name, or first and last sharing a name (StridedInterval(name=) or claripy.SI(explicit_name=True) through the backend); "
+                "every instruction judged against the member sets of the tuples read from the objects' fields at creation"}
+    fc = ctx.cov.setdefault("failing_classes_seen", {})
+    for k, v in found.items():
+        fc[k] = fc.get(k, 0) + len(v)
+    return found
+
+
+def _tuplify(x):
+    return tuple(_tuplify(y) for y in x) if isinstance(x, list) else x
+
+
+def replay_seq(ctx, obj):
+    r = obj["replay"]
+    bases = [(tuple(t) if isinstance(t, list) else t, n, route) for t, n, route in r["bases"]]
+    prog = [_tuplify(i) for i in r["prog"]]
+    print("case:", program_show(bases, prog))
+    fails, _ = run_prog(bases, prog)
+    for f in fails:
+        print("VIOLATION property=%s replay=(given)" % PROP)
+        print("failure: instruction %d %s answers %s: %s - %s  signature: %s" % (f["k"], f["ins"], f["observed"], f["kind"], f["detail"], f["sig"]))
+    if not fails:
+        print("no failure on the current tree")
+    return 1 if fails else 0
